@@ -154,7 +154,7 @@ u64 ir__ZNKSt7__cxx1112basic_stringIcSt11char_traitsIcESaIcEE17find_first_not_of
 #endif
 
 /* ---- stdio capture for the image writers (C20): header arguments and payload bytes go to ghost buffers ---- */
-#define VP_FILE_MAX 128
+#define VP_FILE_MAX 192
 struct vp_file_t { int open, closed, nprintf; const char *fmt0; u32 a0, a1; const char *fmt1; u8 data[VP_FILE_MAX]; u64 ndata; int fail_open; };
 struct vp_file_t vp_file;
 #ifdef NEED_ir_fopen
